@@ -14,7 +14,7 @@ statement and docs/source/action_masking.rst; nothing of the file-system code is
 """
 from __future__ import annotations
 
-from vlib.chdriver import all_of, assume, check, cover, fail, pick, rng
+from vlib.chdriver import all_of, assume, check, cover, fail, pick, pick_int, rng
 from vlib.fixtures import concrete, mk_host, new_sim, quiet
 
 SOURCES = [
@@ -745,6 +745,44 @@ _STEP_COVER = [
     "file_verb_live", "file_verb_unavailable",
 ]
 
+def counters_power(ncre: int, ndel: int, ns: int, acc: int):
+    """The per-tick counters start EVERY tick at zero - also on a node that was shut down (or reset) in the very tick in
+    which files were created / deleted / accessed: solver-chosen numbers of creations, deletions and accesses, then the
+    node is driven into a solver-chosen power state through its own API, then the next tick begins."""
+    from harness.c05_requests import NODE_STATES, _set_node_state
+
+    assume(all_of(rng(ncre, 0, 2), rng(ndel, 0, 2), rng(ns, 0, 3), rng(acc, 0, 2)))
+    st = pick(NODE_STATES, ns)
+    with concrete():
+        w = _build()
+        fs = w.fs
+        fs.create_file(file_name="keep.txt", folder_name="f")
+        w.sim.pre_timestep(1)
+        w.sim.apply_timestep(1)
+    n_c, n_d, n_a = pick_int(ncre, 0, 2), pick_int(ndel, 0, 2), pick_int(acc, 0, 2)
+    with concrete():
+        for i in range(n_c):
+            fs.create_file(file_name=f"c{i}.txt", folder_name="f")
+        for i in range(n_d):
+            fs.create_file(file_name=f"d{i}.txt", folder_name="g")
+            fs.delete_file(folder_name="g", file_name=f"d{i}.txt")
+        for i in range(n_a):
+            fs.access_file(folder_name="f", file_name="keep.txt")
+        _set_node_state(w.pc, st)
+    if n_c or n_d:
+        check(fs.num_file_creations >= n_c and fs.num_file_deletions >= n_d, "harness: the counters did not count the operations of this tick")
+    try:
+        w.sim.pre_timestep(2)
+    except Exception as e:
+        fail(f"pre_timestep raised {type(e).__name__}: {e}")
+    cover("counters_" + ("on" if st == "ON" else "not_on"))
+    check(fs.num_file_creations == 0 and fs.num_file_deletions == 0, lambda: f"node {st}: the per-tick counters start the tick at creations={fs.num_file_creations}, deletions={fs.num_file_deletions}")
+    state = fs.describe_state()
+    check(state["num_file_creations"] == 0 and state["num_file_deletions"] == 0, lambda: f"node {st}: describe_state reports non-zero per-tick counters at the start of the tick")
+    keep = fs.get_file(folder_name="f", file_name="keep.txt")
+    check(keep.num_access == 0, lambda: f"node {st}: the file's per-tick access counter starts the tick at {keep.num_access}")
+
+
 def _step_quick():
     g = {"fh": 1, "Fh": 1}
     jobs = [{"fixed": {"fsf": 0, "fh": 3, "Fh": 3}, "timeout": 400}]  # folder f absent, all five root/a.txt shapes
@@ -781,6 +819,13 @@ HARNESSES = {
             "thorough": "all 185 shapes (f shape x root/a.txt slot x f/a.txt slot x f/b.txt x old-folder content) with GOOD "
             "items, plus all 36 (file health, folder health) member pairs on the live-folder shapes",
         },
+    },
+    "counters_power": {
+        "fn": counters_power,
+        "quick": [{"fixed": {}, "timeout": 200}],
+        "thorough": [{"fixed": {}, "timeout": 400}],
+        "cover": ["counters_on", "counters_not_on"],
+        "bounds": "0-2 creations, 0-2 deletions, 0-2 accesses in one tick, then the node ON / SHUTTING_DOWN / OFF / BOOTING, then the next tick begins",
     },
     "fs_run": {
         "fn": fs_run,
